@@ -94,13 +94,23 @@ RfD == Div(f1, k)
 ---------------------------------------------------------------------------
 (* problems and representations                                            *)
 IsRb(kind) == kind \in {"rb0", "rbl", "rbd"}
-Problems == {<<ks, rf, order, ic>> : ks \in UNION {[1..n -> Kinds] : n \in 1..MaxModes},
-                                      rf \in BOOLEAN, order \in {0, 1}, ic \in {"zero", "d0v0", "static"}}
+\* initial-condition rules: <<d0 given, v0 given, static_ic>>.  Documented meaning: d(0) = d0 if given, else the static displacement of
+\* the elastic equations (f0/k; rigid-body equations at 0) if static_ic, else 0;  v(0) = v0 if given, else 0;  static_ic is
+\* quietly ignored when d0 is given
+IcRule == [zero |-> <<FALSE, FALSE, FALSE>>, d0v0 |-> <<TRUE, TRUE, FALSE>>, static |-> <<FALSE, FALSE, TRUE>>,
+           v0static |-> <<FALSE, TRUE, TRUE>>, d0static |-> <<TRUE, FALSE, TRUE>>, d0only |-> <<TRUE, FALSE, FALSE>>,
+           v0only |-> <<FALSE, TRUE, FALSE>>]
+IcNames == DOMAIN IcRule
+\* a few three-equation problems are always included (two elastic equations can then be coupled NEXT TO a rigid-body equation,
+\* with the residual-flexibility equation in front of it)
+Extra3 == {<<"rb0", "und", "over">>, <<"und", "rbd", "und">>, <<"over", "und", "rb0">>}
+Problems == {<<ks, rf, order, ic>> : ks \in UNION {[1..n -> Kinds] : n \in 1..MaxModes} \cup Extra3,
+                                      rf \in BOOLEAN, order \in {0, 1}, ic \in IcNames}
 
 Solvers == {"SolveUnc", "SolveExp2", "SolveExp1"}
 Reps == {[solver |-> s, mform |-> mf, coupling |-> c, pre_eig |-> pe, rbgiven |-> rg, layout |-> lay] :
             s \in Solvers, mf \in {"none", "vec", "mat"}, c \in {"diag", "coupled"}, pe \in BOOLEAN,
-            rg \in BOOLEAN, lay \in {"contiguous", "interleaved"}}
+            rg \in BOOLEAN, lay \in {"contiguous", "interleaved", "rffirst"}}
 
 HasRb(p) == \E i \in 1..Len(p[1]) : IsRb(p[1][i])
 NEl(p) == Cardinality({i \in 1..Len(p[1]) : ~IsRb(p[1][i])})
@@ -110,12 +120,17 @@ Legal(p, r) ==
   /\ (r.mform = "vec" => r.coupling = "diag")
   /\ (r.pre_eig => (r.coupling = "coupled" /\ r.mform = "mat" /\ ~p[2] /\ r.layout = "contiguous"))
                                                  \* pre_eig: symmetric full matrices; modal order is the eigen-solver's
-  /\ (r.solver = "SolveExp1" => (~p[2] /\ ~r.pre_eig /\ ~r.rbgiven /\ r.layout = "contiguous" /\ p[4] # "static"))
+  /\ (r.solver = "SolveExp1" => (~p[2] /\ ~r.pre_eig /\ ~r.rbgiven /\ r.layout = "contiguous" /\ ~IcRule[p[4]][3]))
   /\ (r.rbgiven => HasRb(p))
   \* SolveUnc's coupled (complex eigenvalue) path is graded by eigenvector conditioning: (nearly) repeated roots with one
   \* eigenvector are outside its domain; SolveExp2 and the uncoupled path are not restricted
   /\ ((r.solver = "SolveUnc" /\ r.coupling = "coupled") => \A i \in 1..Len(p[1]) : ~NearDefective(p[1][i]))
   /\ (r.layout = "interleaved" => (Len(p[1]) + (IF p[2] THEN 1 ELSE 0) >= 2 /\ ~r.pre_eig))
+  \* "rffirst": problem order kept, the residual-flexibility equation placed in FRONT of every other equation
+  \* static initial conditions solve K_el x = F on the equations NOT declared rigid-body: a damped rigid-body equation that is neither
+  \* auto-detected (coupled systems) nor declared makes that solve singular - outside the documented use of static_ic
+  /\ ((\E i \in 1..Len(p[1]) : p[1][i] \in {"rbl", "rbd"}) /\ r.coupling = "coupled" /\ ~r.rbgiven => ~IcRule[p[4]][3])
+  /\ (r.layout = "rffirst" => (p[2] /\ ~r.pre_eig /\ r.solver # "SolveExp1"))
   /\ (\E i \in 1..Len(p[1]) : p[1][i] \in {"rbl", "rbd"}) => (r.coupling = "diag" \/ ~r.rbgiven)
   \* auto-detection of a DAMPED rigid-body mode works for uncoupled systems only (documented): give it explicitly or keep diagonal
   /\ ((\E i \in 1..Len(p[1]) : p[1][i] \in {"rbl", "rbd"}) /\ r.solver = "SolveUnc" /\ r.coupling = "coupled" => r.rbgiven)
@@ -133,7 +148,7 @@ RepsOf(p) == {r \in Reps : Legal(p, r)}
 ClassesNonTrivial == Cardinality(RepsOf(q)) >= 2
 PartitionTotal == \A r \in RepsOf(q) : Predict(q, r).nrb + Predict(q, r).nel + Predict(q, r).nrf = Len(q[1]) + (IF q[2] THEN 1 ELSE 0)
 
-ExportProblem == Export => PrintT(<<"PROBLEM", q, RepsOf(q)>>)
+ExportProblem == Export => PrintT(<<"PROBLEM", q, RepsOf(q), IcRule[q[4]]>>)
 \* the step terms (once)
 ExportTerms == (Export /\ q = <<<<"rb0">>, FALSE, 0, "zero">>) =>
    \A kd \in Kinds : \A o \in {0, 1} : PrintT(<<"STEP", kd, o, StepD(kd, o), StepV(kd, o), Acc, RfD>>)
